@@ -115,7 +115,9 @@ func c18Msgs(r *rng, n int) []jsonrpc2.Message {
 			m, _ := jsonrpc2.NewCall(jsonrpc2.NewNumberID(int32(r.intn(100000))), "m/"+fmt.Sprint(i), payloads[r.intn(len(payloads))])
 			out = append(out, m)
 		case 1:
-			m, _ := jsonrpc2.NewCall(jsonrpc2.NewStringID("id-é-"+fmt.Sprint(i)), "textDocument/didOpen", payloads[r.intn(len(payloads))])
+			// string ids chosen by the peer, including characters JSON writes as escapes
+			sid := r.pick([]string{"id-é-", "a<b>&c-", "q\"uote-", "back\\slash-", "tab\t-", "nl\n-", "\u2028-", "", "0", "-"}) + fmt.Sprint(i)
+			m, _ := jsonrpc2.NewCall(jsonrpc2.NewStringID(sid), "textDocument/didOpen", payloads[r.intn(len(payloads))])
 			out = append(out, m)
 		case 2:
 			m, _ := jsonrpc2.NewNotification("$/progress", payloads[r.intn(len(payloads))])
@@ -143,7 +145,47 @@ func joinHex(xs []string) string {
 	return strings.Join(h, ";")
 }
 
+// cancelOnWrite is a transport that cancels a context while its k-th Write is in progress (the bytes of that write
+// are still delivered), as a slow peer plus an impatient caller would.
+type cancelOnWrite struct {
+	buf    bytes.Buffer
+	n, k   int
+	cancel context.CancelFunc
+}
+
+func (c *cancelOnWrite) Read(p []byte) (int, error) { return 0, io.EOF }
+func (c *cancelOnWrite) Close() error                { return nil }
+func (c *cancelOnWrite) Write(p []byte) (int, error) {
+	c.n++
+	if c.n == c.k && c.cancel != nil {
+		c.cancel()
+	}
+	return c.buf.Write(p)
+}
+
+// c18WriteCancel: a write whose context is cancelled while one of its transport writes is in progress, followed by an
+// ordinary write on the same stream. What is on the wire must still be a sequence of whole frames.
+func c18WriteCancel(e *emitter) {
+	for k := 1; k <= 3; k++ {
+		key := fmt.Sprintf("wcancel %d", k)
+		if !e.mine(key) {
+			continue
+		}
+		ctx, cancel := context.WithCancel(context.Background())
+		tr := &cancelOnWrite{k: k, cancel: cancel}
+		st := jsonrpc2.NewStream(tr)
+		m1, _ := jsonrpc2.NewCall(jsonrpc2.NewNumberID(1), "first/call", map[string]any{"a": 1})
+		m2, _ := jsonrpc2.NewNotification("second/note", "x")
+		_, err1 := st.Write(ctx, m1)
+		_, err2 := st.Write(context.Background(), m2)
+		b1, _ := json.Marshal(m1)
+		b2, _ := json.Marshal(m2)
+		e.emit(key, "wcancel", fmt.Sprint(k), hx(tr.buf.String()), hx(string(b1)), hx(string(b2)), b01(err1 != nil), b01(err2 != nil))
+	}
+}
+
 func runC18(e *emitter, tier string, seed uint64) {
+	c18WriteCancel(e)
 	r := &rng{s: seed}
 	doStream := func(wire []byte, sizes []int, wantBodies []string, tag string) {
 		ss := "-"
